@@ -178,6 +178,44 @@ func TestPatternSemantics(t *testing.T) {
 	})
 }
 
+// TestPatternLongLived: one compiled pattern, as a filter holds it for the life of the server, asked about a long
+// sequence of subjects - up to 300 distinct generated names with repeats. Every answer is the documented meaning of the
+// pattern for that subject, whatever it was asked before.
+func TestPatternLongLived(t *testing.T) {
+	rapid.Check(t, func(t *rapid.T) {
+		p := patternGen().Draw(t, "pattern")
+		sm := gostatsd.NewStringMatch(p)
+		ref := pattern{p}
+		n := rapid.SampledFrom([]int{10, 80, 300}).Draw(t, "subjects")
+		stem := rapid.SampledFrom([]string{"service.endpoint", "noisy.", "a", "host:h", "shard:"}).Draw(t, "stem")
+		pool := append([]string{}, names...)
+		pool = append(pool, tags...)
+		for i := 0; i < n; i++ {
+			pool = append(pool, fmt.Sprintf("%s%d", stem, i))
+		}
+		asks := rapid.IntRange(n, 3*n).Draw(t, "asks")
+		matched, unmatched := 0, 0
+		for i := 0; i < asks; i++ {
+			var s string
+			if i < len(pool) {
+				s = pool[i] // every subject once, in order ...
+			} else {
+				s = rapid.SampledFrom(pool).Draw(t, "subject") // ... then again in a drawn order
+			}
+			got, want := sm.Match(s), ref.match(s)
+			if got != want {
+				vt.Fail(t, "C10:pattern", "pattern %q, asked about %d subjects before: on %q Match=%v, the documented meaning gives %v", p, i, s, got, want)
+			}
+			if want {
+				matched++
+			} else {
+				unmatched++
+			}
+		}
+		ev.C().Case(fmt.Sprintf("L|%s|%s|%d|%d", p, stem, n, asks), matched > 0 && unmatched > 0 && n >= 80, "pattern-long-lived")
+	})
+}
+
 func metricGen() *rapid.Generator[*gostatsd.Metric] {
 	return rapid.Custom(func(t *rapid.T) *gostatsd.Metric {
 		m := &gostatsd.Metric{
